@@ -1,17 +1,30 @@
 #!/usr/bin/python3
 """Re-runs every seeded change against the check of the property it breaks (quick tier) and reports which are still caught.
-usage: tools/regress_mutants.py [name-substring]   (uses tools/mutant.py: applies to /repo, runs, undoes)"""
+usage: tools/regress_mutants.py [name-substring] [--repo <scratch worktree>] [--lane k/n]
+(uses tools/mutant.py: applies to /repo - or to the scratch worktree -, runs, undoes; --lane k/n takes every n-th change)"""
 import json, os, re, subprocess, sys
 V = os.path.dirname(os.path.dirname(os.path.abspath(__file__)))
-flt = sys.argv[1] if len(sys.argv) > 1 else ""
+args = sys.argv[1:]
+repo = None
+lane = (0, 1)
+flt = ""
+i = 0
+while i < len(args):
+    if args[i] == "--repo":
+        repo = args[i + 1]; i += 2
+    elif args[i] == "--lane":
+        k, n = args[i + 1].split("/"); lane = (int(k), int(n)); i += 2
+    else:
+        flt = args[i]; i += 1
 missed = []
-for name in sorted(os.listdir(os.path.join(V, "seeded"))):
-    if flt not in name:
+names = [n for n in sorted(os.listdir(os.path.join(V, "seeded"))) if flt in n]
+for idx, name in enumerate(names):
+    if idx % lane[1] != lane[0]:
         continue
     d = os.path.join(V, "seeded", name)
     mp = os.path.join(d, "meta.json")
     prop = json.load(open(mp))["property"] if os.path.exists(mp) else name[:3]
-    r = subprocess.run([os.path.join(V, "tools/mutant.py"), os.path.join(d, "patch.diff"), "--checks", prop],
+    r = subprocess.run([os.path.join(V, "tools/mutant.py"), os.path.join(d, "patch.diff"), "--checks", prop] + (["--repo", repo] if repo else []),
                        stdout=subprocess.PIPE, stderr=subprocess.STDOUT, text=True)
     caught = "CAUGHT BY: " + prop in r.stdout
     m = re.search(r"signature=(\S+)", r.stdout)
